@@ -98,8 +98,9 @@ def run_part(p, part, nparts, tier):
             cmdline = {b: True for b, s in zip(BYPASSES, srcs)
                        if s == SRC_CMDLINE}
             gwf.setup(cmdline)
-            author_opts = {AUTHOR: {b: True for b, s in zip(BYPASSES, srcs)
-                                    if s == SRC_AUTHOR}}
+            author_opts = core.author_options(
+                AUTHOR, [b for b, s in zip(BYPASSES, srcs)
+                         if s == SRC_AUTHOR])
             base = SettingsDict({
                 'required_peer_approvals': peers,
                 'required_leader_approvals': lreq,
@@ -215,8 +216,8 @@ def replay(data):
         'required_leader_approvals': case['leaders_required'],
         'need_author_approval': case['need_author_approval'],
         'project_leaders': case['project_leaders'],
-        'pr_author_options': {AUTHOR: {b: True for b, s in zip(BYPASSES, srcs)
-                                       if s == SRC_AUTHOR}},
+        'pr_author_options': core.author_options(
+            AUTHOR, [b for b, s in zip(BYPASSES, srcs) if s == SRC_AUTHOR]),
         'robot': ROBOT, 'pull_request_base_url': 'http://h/{pr_id}'})
     pr = StubPR()
     pr.states = case['user_states']
